@@ -9,7 +9,7 @@ package verifharness
 // World.call classifies every API call against the plan.
 
 var profFault = &Profile{
-	Name: "C07-fault", MinOps: 5, MaxOps: 30, NColls: 2, BigVals: true, EndOnly: 100,
+	Name: "C07-fault", MinOps: 5, MaxOps: 30, NColls: 2, BigVals: true, EndOnly: 100, NoPrelude: 1,
 	Kinds: []wk{{OpSet, 30}, {OpSetR, 2}, {OpDel, 10}, {OpGet, 5}, {OpGetItem, 4}, {OpMin, 2}, {OpMax, 1}, {OpTotals, 2}, {OpExist, 1}, {OpLen, 1},
 		{OpVisit, 8}, {OpEvict, 7}, {OpFlush, 12}, {OpReopen, 7}, {OpRevert, 3}, {OpCopyTo, 3}, {OpBlock, 1}, {OpRandom, 1}, {OpDel, 1}},
 }
@@ -17,11 +17,14 @@ var profFault = &Profile{
 // profIterFault: histories for the fault phase of C18 (visits and iterators
 // through all six APIs over file-backed stores).
 var profIterFault = &Profile{
-	Name: "C18-iterfault", MinOps: 5, MaxOps: 24, NColls: 2, EndOnly: 100,
+	Name: "C18-iterfault", MinOps: 5, MaxOps: 24, NColls: 2, EndOnly: 100, NoPrelude: 1,
 	Kinds: []wk{{OpSet, 34}, {OpDel, 6}, {OpFlush, 12}, {OpEvict, 8}, {OpReopen, 8}, {OpVisit, 30}, {OpLen, 2}, {OpSet, 2}},
 }
 
-var faultOpts = RunOpts{Prop: "C07"}
+// FreeCheck adds the hook invariants (no live node freed, zeroed or carrying a
+// stale reclaim mark) after every op: a failed call that leaves marks behind is
+// then seen at once instead of only when the node is recycled much later.
+var faultOpts = RunOpts{Prop: "C07", FreeCheck: true}
 
 // faultOptsFor returns the oracles active during the fault enumeration of a property.
 func faultOptsFor(prop string) RunOpts {
